@@ -56,11 +56,16 @@ def unterminated(rng):
                        "LAYER DATA `%s END", "CLASS EXPRESSION {%s END", "STYLE SIZE [%s END", "MAP CONFIG %s", "LAYER FILTER (%s"]) % body
 
 
-def repetitive(rng, n_chars):
-    unit = rng.choice(["LAYER NAME 'x' TYPE POINT END\n", "CLASS STYLE COLOR 1 2 3 END END\n", "NAME 'abc'\n", "# comment line\n",
-                       "  \t \n", "PROCESSING 'A=B'\n", "POINTS 1 2 3 4 END\n", "/* c */ ", "STATUS ON "])
+VALID_UNITS = ["LAYER NAME 'x' TYPE POINT END\n", "LAYER CLASS STYLE COLOR 1 2 3 END END END\n", "NAME 'abc'\n", "# comment line\n",
+               "  \t \n", "CONFIG 'A' 'B'\n", "SYMBOL POINTS 1 2 3 4 END END\n", "/* c */ ", "STATUS ON ", "LAYER FILTER ([a] = 1 AND [b] > 2) END\n"]
+
+
+def repetitive(rng, n_chars, unit=None, valid=True):
+    """a long MAP made of one repeated unit; valid documents parse completely, the invalid
+    variant fails only at its very end"""
+    unit = unit or rng.choice(VALID_UNITS)
     body = unit * max(1, n_chars // len(unit))
-    return "MAP\n" + body + rng.choice(["END\n", "", "END END"])
+    return "MAP\n" + body + ("END\n" if valid else "END END")
 
 
 def nested(rng, depth):
